@@ -34,6 +34,20 @@ Theorem C06_store_stable :
                 lookup hash H flip st' (N.of_nat i) = Some h.
 Proof. exact store_stable. Qed.
 
+(* ... and ONLY those: for an index not received yet (k <= v <= 2^48-1) the
+   store answers nothing, whatever was inserted -- LookUp can never hand out a
+   value for a commitment the peer has not revoked *)
+Theorem C06_unreceived_unknown :
+  forall (hash : Type) (H : hash -> hash) (flip : N -> hash -> hash)
+         (hash_eqb : hash -> hash -> bool),
+    (forall a b, hash_eqb a b = true <-> a = b) ->
+  forall (hs : list hash) (st : store hash),
+    add_all hash H flip hash_eqb new_store hs = Some st ->
+    N.of_nat (length hs) <= start_index ->
+    forall v, N.of_nat (length hs) <= v -> v <= start_index ->
+              lookup hash H flip st v = None.
+Proof. exact lookup_unreceived. Qed.
+
 (* the producer's own sequence is always accepted, and the store then answers
    every lookup exactly like the producer *)
 Theorem C06_producer_accepted :
